@@ -307,6 +307,21 @@ class Engine(ExprMixin, CallMixin):
                     self.on_field_access(s, o, str(i), 'write', tgt)
                     self.hstore(s, o, str(i), self.coerce(s, it, o.cls.fields[str(i)]))
                 return [('next', None, s)]
+            if isinstance(o, SRef) and o.cls.kind == 'list' and o.cls.ncells is None:
+                # lst[:] = [a, b, ...] : the same list object now holds exactly the displayed items
+                s = st.copy()
+                elems = self.hload(s, o, 'elems')
+                cat = None
+                for i, it in enumerate(v.items):
+                    t = self.coerce(s, it, o.cls.e)
+                    elems = z3.Store(elems, i, t)
+                    if 'cat' in o.cls.fields:
+                        cat = t if cat is None else z3.Concat(cat, t)
+                self.hstore(s, o, 'elems', elems)
+                self.hstore(s, o, 'len', z3.IntVal(len(v.items)))
+                if 'cat' in o.cls.fields:
+                    self.hstore(s, o, 'cat', cat if cat is not None else z3.StringVal(''))
+                return [('next', None, s)]
         raise Unsupported('slice assignment at line %d' % tgt.lineno)
 
     def store_attr(self, o, attr, v, st, node=None):
@@ -343,9 +358,16 @@ class Engine(ExprMixin, CallMixin):
                     raise Unsupported('list store index')
                 n = self.hload(st, obj, 'len')
                 out = []
+                if 'cat' in cls.fields:
+                    # the ghost concatenation of the list can only be updated in place when the list has one element
+                    self.oblige('assert', 'item store into a concatenation-tracked list: the list has exactly one element',
+                                st, n == 1, node)
+                    st = st.assume(n == 1)
                 for side, s in self.fork(st, z3.And(idx.t >= -n, idx.t < n)):
                     if side:
                         s = s.copy()
+                        if 'cat' in cls.fields:
+                            self.hstore(s, obj, 'cat', self.coerce(s, v, cls.e))
                         j = z3.If(idx.t < 0, idx.t + n, idx.t)
                         self.hstore(s, obj, 'elems', z3.Store(self.hload(s, obj, 'elems'), j, self.coerce(s, v, cls.e)))
                         out.append(('next', None, s))
